@@ -11,13 +11,13 @@ import (
 type Config struct {
 	MaxQoS          byte   `json:"max_qos"`
 	RetainAvailable bool   `json:"retain_available"`
-	ServerRecvMax   uint16 `json:"server_recv_max"`  // 0 = default 1024
-	MaxSessionExp   uint32 `json:"max_session_exp"`  // 0 = default (max uint32)
-	MaxMsgExpiry    int64  `json:"max_msg_expiry"`   // -1 = 0 (off), 0 = default 86400
-	WritesPending   int32  `json:"writes_pending"`   // 0 = default
-	WriteBuf        int    `json:"write_buf"`        // 0 = default
-	MaxInflight     uint16 `json:"max_inflight"`     // 0 = default
-	TopicAliasMax   int    `json:"topic_alias_max"`  // -1 = 0, 0 = default 65535
+	ServerRecvMax   uint16 `json:"server_recv_max"` // 0 = default 1024
+	MaxSessionExp   uint32 `json:"max_session_exp"` // 0 = default (max uint32)
+	MaxMsgExpiry    int64  `json:"max_msg_expiry"`  // -1 = 0 (off), 0 = default 86400
+	WritesPending   int32  `json:"writes_pending"`  // 0 = default
+	WriteBuf        int    `json:"write_buf"`       // 0 = default
+	MaxInflight     uint16 `json:"max_inflight"`    // 0 = default
+	TopicAliasMax   int    `json:"topic_alias_max"` // -1 = 0, 0 = default 65535
 	ObscureNotAuth  bool   `json:"obscure_not_auth"`
 	MaxPacketSize   uint32 `json:"max_packet_size"`
 	Inline          bool   `json:"inline"`
@@ -42,38 +42,38 @@ type Op struct {
 	C    int    `json:"c"` // client slot
 
 	// connect
-	Ver        byte   `json:"ver,omitempty"`
-	Clean      bool   `json:"clean,omitempty"`
-	Expiry     uint32 `json:"expiry,omitempty"`
-	ExpirySet  bool   `json:"expiry_set,omitempty"`
-	RecvMax    uint16 `json:"recv_max,omitempty"`
-	TAM        uint16 `json:"tam,omitempty"`
-	MPS        uint32 `json:"mps,omitempty"`
-	RPI0       bool   `json:"rpi0,omitempty"` // Request Problem Information = 0
-	Will       *Will  `json:"will,omitempty"`
-	KeepAlive  uint16 `json:"keepalive,omitempty"`
+	Ver       byte   `json:"ver,omitempty"`
+	Clean     bool   `json:"clean,omitempty"`
+	Expiry    uint32 `json:"expiry,omitempty"`
+	ExpirySet bool   `json:"expiry_set,omitempty"`
+	RecvMax   uint16 `json:"recv_max,omitempty"`
+	TAM       uint16 `json:"tam,omitempty"`
+	MPS       uint32 `json:"mps,omitempty"`
+	RPI0      bool   `json:"rpi0,omitempty"` // Request Problem Information = 0
+	Will      *Will  `json:"will,omitempty"`
+	KeepAlive uint16 `json:"keepalive,omitempty"`
 
 	// subscribe / unsubscribe
 	Filters []rc.SubFilter `json:"filters,omitempty"`
 	SubID   int            `json:"sub_id,omitempty"`
 
 	// publish
-	Topic   string   `json:"topic,omitempty"`
-	QoS     byte     `json:"qos,omitempty"`
-	Retain  bool     `json:"retain,omitempty"`
-	Empty   bool     `json:"empty,omitempty"` // empty payload (retained delete)
-	Props   rc.Props `json:"props,omitempty"`
-	Dup     bool     `json:"dup,omitempty"`
-	PID     uint16   `json:"pid,omitempty"` // explicit packet id (0 = allocate)
-	Alias   uint16   `json:"alias,omitempty"`
-	NoTopic bool     `json:"no_topic,omitempty"` // send empty topic (alias use)
-	Collide bool     `json:"collide,omitempty"` // use a packet id the broker currently has outstanding towards this client
-	CollideNext bool `json:"collide_next,omitempty"` // own QoS 2 publish under the id the broker will assign to its next outbound message on this connection; PUBREL withheld
-	MsgExp  uint32   `json:"msg_exp,omitempty"`
-	Size    int      `json:"size,omitempty"` // payload filler
+	Topic       string   `json:"topic,omitempty"`
+	QoS         byte     `json:"qos,omitempty"`
+	Retain      bool     `json:"retain,omitempty"`
+	Empty       bool     `json:"empty,omitempty"` // empty payload (retained delete)
+	Props       rc.Props `json:"props,omitempty"`
+	Dup         bool     `json:"dup,omitempty"`
+	PID         uint16   `json:"pid,omitempty"` // explicit packet id (0 = allocate)
+	Alias       uint16   `json:"alias,omitempty"`
+	NoTopic     bool     `json:"no_topic,omitempty"`     // send empty topic (alias use)
+	Collide     bool     `json:"collide,omitempty"`      // use a packet id the broker currently has outstanding towards this client
+	CollideNext bool     `json:"collide_next,omitempty"` // own QoS 2 publish under the id the broker will assign to its next outbound message on this connection; PUBREL withheld
+	MsgExp      uint32   `json:"msg_exp,omitempty"`
+	Size        int      `json:"size,omitempty"` // payload filler
 
 	// disconnect
-	Reason byte `json:"reason,omitempty"`
+	Reason byte   `json:"reason,omitempty"`
 	How    string `json:"how,omitempty"` // normal | will | drop | garbage | second-connect | keepalive
 
 	// ack control
